@@ -13,10 +13,10 @@
 (* the end; the characters it wrote must be the recording.                 *)
 (***************************************************************************)
 EXTENDS MarkupConverters, IOUtils
-CONSTANT Dev
 Traces == JsonDeserialize(IOEnv.TRACE_FILE)
 TraceInit == \E t \in 1..Len(Traces) :
-               /\ hs = <<t>> /\ T = Traces[t].T /\ phase = "begin" /\ conv = Traces[t].conv /\ mode = Traces[t].mode /\ dev = Dev
+               /\ hs = <<t>> /\ T = Traces[t].T /\ phase = "begin" /\ conv = Traces[t].conv /\ mode = Traces[t].mode
+               /\ dev = {Traces[t].dev[q] : q \in 1..Len(Traces[t].dev)}      \* the design the harness found the run to follow
                /\ i = 1 /\ stack = <<>> /\ chars = <<>> /\ font = 0 /\ fstack = <<>> /\ npages = 0 /\ w = W0 /\ px = P0
 TraceNext == ABegin \/ AEnter \/ AExit \/ AClose
 \* checked in every state: what has been written so far is a prefix of the recording; at the end it is the recording
